@@ -120,6 +120,7 @@ static const char* F_UTF8_SURR    = "C05-utf8-encode-unpaired-surrogate";
 static const char* F_UCS4_LOWSURR = "C05-ucs4-encode-lone-low-surrogate";
 static const char* F_TABLE_NUL    = "C05-table-nul-unrepresentable";
 static const char* F_TABLE_CAN    = "C05-table-can-truncates-codepoint";
+static const char* F_TABLE_BESTFIT = "C05-table-bestfit-without-icu-counterpart";
 static const char* F_ICU_CAN      = "C05-icu-can-supplementary";
 static const char* F_ICU_OVERREAD = "C05-icu-encode-throw-overread";
 static const char* F_ICU_SUBST    = "C05-icu-decode-substitutes-illegal";
@@ -213,29 +214,38 @@ static void callTo(Tc& tc, const XMLCh* src, size_t n, size_t maxBytes, XMLTrans
 // references for the non-UTF encodings: ICU's own converter, opened directly
 // ------------------------------------------------------------------------------------------------
 struct IcuRef {
-    UConverter* c = 0; std::string name;
+    UConverter* c = 0; UConverter* cfb = 0; std::string name;
     uint16_t to[256]; bool def[256]; std::map<uint32_t, int> inv; std::set<uint32_t> ambig;   // single byte only
     std::set<int> xbytes; std::set<uint32_t> xcps;                                               // excluded by a third witness
-    IcuRef(const char* n, bool single) : name(n) {
+    uint16_t alt[256]; std::set<int> ambB; std::set<uint32_t> ambC;                               // EBCDIC NL/LF variants (",swaplfnl")
+    IcuRef(const char* n, bool single, bool ebcdic = false) : name(n) {
         UErrorCode e = U_ZERO_ERROR; c = ucnv_open(n, &e);
         if (!c || U_FAILURE(e)) { c = 0; return; }
         ucnv_setToUCallBack(c, UCNV_TO_U_CALLBACK_STOP, 0, 0, 0, &e);
         ucnv_setFromUCallBack(c, UCNV_FROM_U_CALLBACK_STOP, 0, 0, 0, &e);
-        ucnv_setFallback(c, false);
+        cfb = ucnv_open(n, &e);
+        if (cfb) { ucnv_setFromUCallBack(cfb, UCNV_FROM_U_CALLBACK_STOP, 0, 0, 0, &e); ucnv_setFallback(cfb, true); }
         if (single) for (int b = 0; b < 256; b++) {
             char ch = (char)b; UChar out[4]; e = U_ZERO_ERROR;
             int32_t l = ucnv_toUChars(c, out, 4, &ch, 1, &e);
             def[b] = U_SUCCESS(e) && l == 1; to[b] = def[b] ? out[0] : 0xFFFF;
             if (def[b]) { if (inv.count(out[0])) ambig.insert(out[0]); else inv[out[0]] = b; }
         }
+        if (single && ebcdic) {
+            UConverter* a = ucnv_open((name + ",swaplfnl").c_str(), &e);
+            if (a && U_SUCCESS(e)) for (int b = 0; b < 256; b++) { char ch = (char)b; UChar out[4]; e = U_ZERO_ERROR; int32_t l = ucnv_toUChars(a, out, 4, &ch, 1, &e); alt[b] = (U_SUCCESS(e) && l == 1) ? out[0] : 0xFFFF; if (alt[b] != to[b]) { ambB.insert(b); ambC.insert(alt[b]); ambC.insert(to[b]); } }
+            if (a) ucnv_close(a);
+        }
     }
-    ~IcuRef() { if (c) ucnv_close(c); }
-    // encode one scalar with ICU itself (no fallbacks, stop on unassigned)
-    bool icuEncode(uint32_t cp, Bytes& o) {
+    ~IcuRef() { if (c) ucnv_close(c); if (cfb) ucnv_close(cfb); }
+    // encode one scalar with ICU itself (converter defaults = what Xerces' ICUTranscoder gets; stop on unassigned).
+    // -> 1 bytes in o, 0 unassigned, -1 ICU reports success without output (default-ignorable code point: skipped by ICU)
+    int icuEncode(uint32_t cp, Bytes& o, bool withFallback = false) {
+        UConverter* c = withFallback ? this->cfb : this->c;
         UChar u[2]; int n = 0; if (cp >= 0x10000) { u[0] = (UChar)(0xD800 + ((cp - 0x10000) >> 10)); u[1] = (UChar)(0xDC00 + ((cp - 0x10000) & 0x3FF)); n = 2; } else { u[0] = (UChar)cp; n = 1; }
         char buf[32]; UErrorCode e = U_ZERO_ERROR; int32_t l = ucnv_fromUChars(c, buf, 32, u, n, &e);
-        if (U_FAILURE(e)) return false;
-        o.assign((uint8_t*)buf, (uint8_t*)buf + l); return l > 0;
+        if (U_FAILURE(e)) return 0;
+        o.assign((uint8_t*)buf, (uint8_t*)buf + l); return l > 0 ? 1 : -1;
     }
     bool icuDecode(const Bytes& b, Units& o) {
         UChar buf[64]; UErrorCode e = U_ZERO_ERROR; int32_t l = ucnv_toUChars(c, buf, 64, (const char*)(b.empty() ? 0 : &b[0]), (int32_t)b.size(), &e);
@@ -248,7 +258,7 @@ static IcuRef* refFor(const TcDesc* d) {
     if (!d->icuRef) return 0;
     std::map<std::string, IcuRef*>::iterator it = g_refs.find(d->name);
     if (it != g_refs.end()) return it->second;
-    IcuRef* r = new IcuRef(d->icuRef, d->kind == K_SB);
+    IcuRef* r = new IcuRef(d->icuRef, d->kind == K_SB, d->ebcdic);
     std::vector<uint32_t> xb = unhexList(g_xbytes[d->name]);
     for (size_t i = 0; i < xb.size(); i++) { r->xbytes.insert((int)xb[i]); if (r->def[xb[i] & 255]) r->xcps.insert(r->to[xb[i] & 255]); }
     std::vector<uint32_t> xc = unhexList(g_xbytes[std::string(d->name) + "/cps"]);
@@ -256,7 +266,8 @@ static IcuRef* refFor(const TcDesc* d) {
     g_refs[d->name] = r; return r;
 }
 
-// reference encoding of one scalar value: 1 representable (bytes in o), 0 unrepresentable, -1 ambiguous/excluded (dropped)
+// reference encoding of one scalar value: 1 representable (bytes in o), 0 unrepresentable, -1 ambiguous/excluded (dropped),
+// 2 only a best-fit fallback mapping exists (o = ICU's fallback byte): may be reported unrepresentable or must give that byte
 static int refEncode(const TcDesc* d, uint32_t cp, Bytes& o, Sum* sum = 0) {
     o.clear();
     switch (d->kind) {
@@ -266,13 +277,20 @@ static int refEncode(const TcDesc* d, uint32_t cp, Bytes& o, Sum* sum = 0) {
     case K_SB: {
         IcuRef* r = refFor(d); if (!r || !r->c) return -1;
         if (r->ambig.count(cp) || r->xcps.count(cp)) return -1;
+        if (r->ambC.count(cp)) { if (sum) sum->labels["dropped:EBCDIC NL/LF variant (ICU has both mappings)"]++; return -1; }
         std::map<uint32_t, int>::iterator it = r->inv.find(cp);
-        Bytes w2; bool can2 = r->icuEncode(cp, w2);               // second witness: ICU's from-Unicode direction
-        if (it == r->inv.end()) { if (can2) { if (sum) sum->dis++; return -1; } return 0; }
+        Bytes w2; int can2 = r->icuEncode(cp, w2);                // second witness: ICU's from-Unicode direction
+        if (it == r->inv.end()) {
+            if (can2 == -1) { if (sum) sum->labels["dropped:default-ignorable (ICU skips it silently)"]++; return -1; }
+            if (can2 == 1) { if (sum) sum->dis++; return -1; }
+            // best-fit ("fallback") mappings of the vendor tables: neither clearly representable nor clearly not
+            if (!d->icuProvided && r->cfb && r->icuEncode(cp, o, true) == 1 && o.size() == 1) return 2;
+            o.clear(); return 0;
+        }
         if (r->xbytes.count(it->second)) return -1;
-        if (!can2 || w2.size() != 1 || w2[0] != it->second) { if (sum) sum->dis++; return -1; }
+        if (can2 != 1 || w2.size() != 1 || w2[0] != it->second) { if (sum) sum->dis++; return -1; }
         o.push_back((uint8_t)it->second); return 1; }
-    case K_MB: { IcuRef* r = refFor(d); if (!r || !r->c) return -1; return r->icuEncode(cp, o) ? 1 : 0; }
+    case K_MB: { IcuRef* r = refFor(d); if (!r || !r->c) return -1; int k = r->icuEncode(cp, o); if (k == -1 && sum) sum->labels["dropped:default-ignorable (ICU skips it silently)"]++; return k; }
     }
     return -1;
 }
@@ -301,12 +319,21 @@ static std::string checkScalar(Tc& tc, uint32_t cp, Sum& sum) {
     const TcDesc* d = tc.d; Bytes E; int rep = refEncode(d, cp, E, &sum);
     if (rep < 0) { sum.labels["dropped:ambiguous-or-third-witness"]++; return ""; }
     Units u; unitsOf(cp, u);
+    if (rep == 2) {
+        sum.labels["lenient:best-fit fallback mapping"]++;
+        bool can = tc.t->canTranscodeTo(cp); ToRes t; callTo(tc, &u[0], u.size(), 8, XMLTranscoder::UnRep_Throw, t, 1);
+        if (!t.bad.empty()) return t.bad;
+        if (cp < 0x10000 && can != !t.exc) return std::string("canTranscodeTo=") + (can ? "true" : "false") + " but transcodeTo " + (t.exc ? "throws" : "gives " + hexB(t.out));
+        if (!t.exc && t.out != E) return "best-fit mapping gives " + hexB(t.out) + " but ICU's fallback mapping is " + hexB(E);
+        return "";
+    }
     bool isIcu = d->icuProvided, isTable = d->table;
     if (isTable && cp == 0 && sum.skipping(F_TABLE_NUL)) { sum.excl[F_TABLE_NUL]++; return ""; }
+    if (isTable && cp == 0x110 && rep == 0 && !strcmp(d->name, "IBM1047") && sum.skipping(F_TABLE_BESTFIT)) { sum.excl[F_TABLE_BESTFIT]++; return ""; }   // IBM1047: U+0110 -> 0xAC
     // (a) canTranscodeTo
     bool skipCan = false;
-    if (isTable && cp >= 0x10000 && sum.skipping(F_TABLE_CAN)) { Bytes t2; if (refEncode(d, cp & 0xFFFF, t2) != 0) { skipCan = true; sum.excl[F_TABLE_CAN]++; } }
-    if (isIcu && cp >= 0x10000 && rep == 1 && sum.skipping(F_ICU_CAN)) { skipCan = true; sum.excl[F_ICU_CAN]++; }
+    if (isTable && cp >= 0x10000 && sum.skipping(F_TABLE_CAN)) { skipCan = true; sum.excl[F_TABLE_CAN]++; }
+    if (isIcu && cp >= 0x10000 && sum.skipping(F_ICU_CAN)) { skipCan = true; sum.excl[F_ICU_CAN]++; }
     if (!skipCan) { bool can = tc.t->canTranscodeTo(cp); if (can != (rep == 1)) return std::string("canTranscodeTo=") + (can ? "true" : "false") + " but reference says " + (rep == 1 ? "representable as " + hexB(E) : "unrepresentable"); }
     // (b) transcodeTo, UnRep_Throw
     bool skipEnc = d->kind == K_UCS4 && cp >= 0x10000 && d->bigEndian != (bool)XMLPlatformUtils::fgXMLChBigEndian && sum.skipping(F_UCS4_SWAP);
@@ -338,7 +365,8 @@ static std::string checkScalar(Tc& tc, uint32_t cp, Sum& sum) {
         if (!f.bad.empty()) return "transcodeFrom: " + f.bad;
         if (f.exc) return std::string("transcodeFrom threw ") + excName(f.exc) + " for the legal sequence " + hexB(E);
         if (f.out != expect || f.eaten != E.size()) return "transcodeFrom(" + hexB(E) + ") gave [" + hexU(f.out) + "] eaten=" + std::to_string(f.eaten) + ", expected [" + hexU(expect) + "]";
-        if (!(d->kind == K_MB)) { if (f.sizes[0] != E.size() || (f.sizes.size() > 1 && f.sizes[1] != 0)) return "charSizes wrong for " + hexB(E); }
+        if (d->kind == K_UTF16 || d->kind == K_XMLCH) { for (size_t i = 0; i < f.sizes.size(); i++) if (f.sizes[i] != 2) return "charSizes wrong for " + hexB(E); }
+        else if (!(d->kind == K_MB)) { if (f.sizes[0] != E.size() || (f.sizes.size() > 1 && f.sizes[1] != 0)) return "charSizes wrong for " + hexB(E); }
         Bytes A, B, emb; if (refEncode(d, 0x41, A) == 1 && refEncode(d, 0x3C, B) == 1) {
             emb = A; emb.insert(emb.end(), E.begin(), E.end()); emb.insert(emb.end(), B.begin(), B.end());
             Units ex2; ex2.push_back(0x41); ex2.insert(ex2.end(), expect.begin(), expect.end()); ex2.push_back(0x3C);
@@ -466,10 +494,11 @@ static std::string checkUtf16(Tc& tc, const Units& u, Sum& sum) {
 }
 static void laneUtf16(const Req& q, Sum& sum) {
     const TcDesc* d = findTc(get(q, "tc")); if (!d || (d->kind != K_UTF16 && d->kind != K_XMLCH)) { sum.fail("lane=utf16\ttc=" + get(q, "tc"), "not a UTF-16 transcoder"); return; }
-    Tc tc(d); long w = geti(q, "worker", 0), nw = geti(q, "nworkers", 1);
+    Tc tc(d); long w = geti(q, "worker", 0), nw = geti(q, "nworkers", 1); bool thorough = get(q, "tier", "quick") == "thorough"; unsigned seed = (unsigned)geti(q, "seed", 1);
     static const unsigned V[] = {0x0000, 0x0041, 0x00FF, 0xD7FF, 0xD800, 0xDBFF, 0xDC00, 0xDFFF, 0xE000, 0xFFFE, 0xFFFF};
-    Sub& s = sum.subs[std::string("utf16:") + d->name + "(every unit x 11 boundary units, both orders)"]; s.exhaustive = false;
+    Sub& s = sum.subs[std::string("utf16:") + d->name + (thorough ? "(every unit x 11 boundary units, both orders)" : "(every surrogate + 1/16 of the other units x 11 boundary units, both orders)")]; s.exhaustive = false;
     for (unsigned a = 0; a < 0x10000; a++) {
+        if (!thorough && !isSurr(a) && (a >> 4) % 16 != seed % 16 && a != 0xD7FF && a != 0xE000 && a < 0xFFFE) continue;
         if ((long)(a % nw) != w) continue;
         for (size_t k = 0; k < 11; k++) for (int order = 0; order < 2; order++) {
             Units u; if (order) { u.push_back((XMLCh)V[k]); u.push_back((XMLCh)a); } else { u.push_back((XMLCh)a); u.push_back((XMLCh)V[k]); }
@@ -539,6 +568,7 @@ static std::string checkPageByte(Tc& tc, int b, Sum& sum, bool& counted) {
         FromRes f; callFrom(tc, src, n, 4, f);
         if (!f.bad.empty()) return f.bad;
         Units ex(n, (XMLCh)r->to[b]);
+        if (r->ambB.count(b)) { Units ex2(n, (XMLCh)r->alt[b]); if (n == 1) sum.labels["lenient:EBCDIC NL/LF variant byte"]++; if (!f.exc && f.out == ex2 && f.eaten == n) continue; }
         if (f.exc || f.out != ex || f.eaten != n) return "byte " + hx(b) + " decoded to [" + hexU(f.out) + "] exc=" + excName(f.exc) + "; ICU " + d->icuRef + " says " + hx(r->to[b]);
         for (size_t i = 0; i < n; i++) if (f.sizes[i] != 1) return "charSizes != 1";
     }
@@ -572,6 +602,7 @@ static std::string checkSurr(Tc& tc, const Units& u, Sum& sum, bool& skipped) {
     if (t.exc == E_TRANSCODING) return "";
     if (t.exc) return std::string("threw ") + excName(t.exc);
     if (hiFirst && u.size() == 1 && t.eaten == 0 && t.out.empty()) return "";      // a lead surrogate at the end of a block waits for its trail
+    if (hiFirst && u.size() == 1 && d->icuProvided && t.out.empty()) return "";      // ... inside the ICU converter (streaming state)
     return "ill-formed UTF-16 [" + hexU(u) + "] was encoded as " + hexB(t.out) + " (eaten=" + std::to_string(t.eaten) + ") instead of being reported";
 }
 static void laneSurr(const Req& q, Sum& sum) {
@@ -748,6 +779,17 @@ static std::string hTables(const Req& q) {
     for (size_t i = 0; i < NTCS; i++) { XMLTransService::Codes rc; XMLTranscoder* t = XMLPlatformUtils::fgTransService->makeNewTranscoderFor(TCS[i].name, rc, 64); o += std::string("TC\t") + TCS[i].name + "\t" + (t ? "ok" : "missing") + "\n"; delete t; }
     return o;
 }
+// list the best-fit entries of the intrinsic table transcoders (code points accepted although no byte decodes to them)
+static std::string hBestfit(const Req& q) {
+    std::string o;
+    for (size_t i = 0; i < NTCS; i++) if (TCS[i].table) {
+        Tc tc(&TCS[i]); IcuRef* r = refFor(&TCS[i]);
+        for (uint32_t cp = 1; cp < 0x10000; cp++) { if (isSurr(cp) || r->inv.count(cp)) continue; if (!tc.t->canTranscodeTo(cp)) continue;
+            XMLCh u = (XMLCh)cp; ToRes t; callTo(tc, &u, 1, 4, XMLTranscoder::UnRep_Throw, t, 1); Bytes fb; int k = r->icuEncode(cp, fb, true);
+            o += std::string("BESTFIT\t") + TCS[i].name + "\t" + hx(cp) + "\txerces=" + hexB(t.out) + "\ticu-fallback=" + (k == 1 ? hexB(fb) : std::string("-")) + "\n"; }
+    }
+    return o;
+}
 // raw API call for probing/witnesses: op=from|to|can
 static std::string hRaw(const Req& q) {
     const TcDesc* d = findTc(get(q, "tc")); if (!d) return "BAD\n"; Tc tc(d); if (!tc.t) return "BAD\n"; std::string op = get(q, "op");
@@ -763,11 +805,11 @@ int main(int argc, char** argv) {
     if (argc > 1) {
         Req q; for (int i = 1; i < argc; i++) { std::string a = argv[i]; size_t eq = a.find('='); if (eq != std::string::npos) q[a.substr(0, eq)] = a.substr(eq + 1); }
         std::string kind = get(q, "kind", "lane");
-        std::string out = kind == "item" ? hItem(q) : kind == "tables" ? hTables(q) : kind == "raw" ? hRaw(q) : hLane(q);
+        std::string out = kind == "item" ? hItem(q) : kind == "tables" ? hTables(q) : kind == "raw" ? hRaw(q) : kind == "bestfit" ? hBestfit(q) : hLane(q);
         fwrite(out.data(), 1, out.size(), stdout);
     } else {
         std::map<std::string, Handler> hs;
-        hs["lane"] = hLane; hs["item"] = hItem; hs["tables"] = hTables; hs["raw"] = hRaw;
+        hs["lane"] = hLane; hs["item"] = hItem; hs["tables"] = hTables; hs["raw"] = hRaw; hs["bestfit"] = hBestfit;
         rc = serve(hs);
     }
     for (std::map<std::string, IcuRef*>::iterator it = g_refs.begin(); it != g_refs.end(); ++it) delete it->second;
